@@ -199,8 +199,9 @@ example : ([2, 1] : List ℚ).headD 0 ≠ 0 ∧ ([2, 1] : List ℚ).length = ([3
 
 /-- `q = ω^k` for any N-th root of unity ω (so `q^N = 1`), any field of characteristic ≠ 2 (ℂ, and
     the prime field the driver computes in).  Whenever the model of `DFTTransformer.termXq` returns a
-    value for a sum of terms `c n^p a^n {δ[n-d] | u[n-d] | 1}` (p ≤ 1; it returns `none` at a pole
-    `a q = 1`, for p ≥ 2 and for sinusoids), that value is `Σ_{n<N} x[n] q^n`.
+    value for a sum of terms `c n^p a^n {δ[n-d] | u[n-d] | 1}` (p ≤ 1; it returns `none` for p ≥ 2, for
+    sinusoids, and — symbolic N only — at a pole `a q = 1`; for numeric N the bin where `a q = 1` carries the shifted
+    special case, finding F20 repaired), that value is `Σ_{n<N} x[n] q^n`.
     `dftOk` excludes only, for symbolic N, a step starting beyond N (the code warns
     "assuming … in interval"); impulses are unconditional (finding F21 repaired). -/
 theorem dft_def [DecidableEq K] (numeric : Bool) (ts : List (CTerm K)) (N : ℕ) (q : K) (hq : q ^ N = 1)
@@ -210,6 +211,8 @@ theorem dft_def [DecidableEq K] (numeric : Bool) (ts : List (CTerm K)) (N : ℕ)
 
 example : dftOk true 8 (⟨2, 1, 3, .step 2⟩ : CTerm ℚ) := by simp [dftOk]
 example : dftSig true [(⟨2, 1, 3, .step 2⟩ : CTerm ℚ)] 8 (-1) ≠ none := by decide +kernel
+-- the bin where the geometric base meets the kernel: ((-1)^n).DFT(N=4) at k = 2 is 4
+example : dftSig true [(⟨1, 0, -1, .one⟩ : CTerm ℚ)] 4 (-1) = some 4 := by decide +kernel
 
 /-- geometric family, all N, via the finite geometric sum -/
 theorem dft_geometric (a q : K) (N : ℕ) (hq : q ^ N = 1) (h : 1 - a * q ≠ 0) :
